@@ -28,7 +28,7 @@ RULE = ("full in-memory stack: real Router + 1..3 generated drivers (1-3 groups,
 ASSUMPTIONS = ["BLOB payloads are compared by C08; Element.enabled toggles at run time are not in the quantifier",
                "numbers are compared numerically within the format's resolution",
                "a device without enabled properties may or may not be listed"]
-REQUIRED_EVENTS = ["sessions", "sessions_with_a_slow_blob_connect", "client_submits_with_nothing_assigned", "client_handshakes_for_one_device", "sessions_with_a_tty_client", "tty_client_properties_compared", "sessions_with_lagging_blob_link", "client_restarts_with_kept_mirror", "driver_ops_while_client_disconnected", "driver_ops_during_handshake", "checkpoints", "library_client_properties_compared", "reference_mirror_messages",
+REQUIRED_EVENTS = ["sessions_with_a_reacting_in_process_client", "writes_from_inside_a_definition_callback", "reactive_in_process_client_cases", "sessions", "sessions_with_a_slow_blob_connect", "client_submits_with_nothing_assigned", "client_handshakes_for_one_device", "sessions_with_a_tty_client", "tty_client_properties_compared", "sessions_with_lagging_blob_link", "client_restarts_with_kept_mirror", "driver_ops_while_client_disconnected", "driver_ops_during_handshake", "checkpoints", "library_client_properties_compared", "reference_mirror_messages",
                    "snooping_client_checkpoints", "ops_with_bytes_in_flight", "depth3_sessions"]
 
 QUICK_SHARDS = 4
@@ -207,6 +207,18 @@ async def checkpoint(ctx, case, sess, client, drivers, specs, tracks, mirror, sn
         if diffs:
             ctx.violate(f"snooping-client:{diffs[0][0]}", f"step {step}: {diffs[0][1]}", case, {"step": step, "diffs": diffs[:6]})
             return False
+        # The snooping client is a registered client like any other: the library client's handshake made EVERY device define itself
+        # to everybody, so it also mirrors the device of the very driver it belongs to - a client other than that driver.
+        own = 1
+        expected = DV.expected_device(drivers[own], specs[own], tracks[own])
+        v = stack.client_view(sn_client).get(specs[own]["name"], {})
+        expected = {k: (dict(p, state=v.get(k, {}).get("state", p["state"])) if p["kind"] == "BLOB" else p) for k, p in expected.items()}
+        ctx.count("snooping_client_checkpoints_on_its_own_drivers_device")
+        diffs = fullstack.compare_mirror(dict(v), expected, who="snooping-client")
+        if diffs:
+            ctx.violate(f"snooping-client:own-device:{diffs[0][0]}", f"step {step}: the snooping client of driver {specs[own]['name']} about that driver's own device: {diffs[0][1]}",
+                        case, {"step": step, "diffs": diffs[:6]})
+            return False
     return True
 
 
@@ -293,8 +305,38 @@ async def session(ctx, case):
         mirror = fullstack.MultiMirror([client._vf_links[0].s2c, client._vf_links[1].s2c])
         snooper = None
         if case.get("snoop"):
+            if case["i"] % 2 == 0:
+                # (reacting snooper, below) let the accepted connections register with the router first: the snooping client is then
+                # the LAST registered client, and the re-entrant ordering defect recorded as a known finding stays out of these sessions
+                for _ in range(4):
+                    await asyncio.sleep(0)
             sn = drivers[1].snoop_device(specs[0]["name"])
             snooper = (sn, 0)
+        if snooper is not None and case["i"] % 2 == 0:
+            # The snooping driver REACTS: whenever a Text / Number property of the snooped device is (re-)defined it writes a value of
+            # its own from inside the callback.  Its client was registered last, so nobody is handed the update before the definition.
+            from indi.client import events as CE
+            rrng = ctx.rng("reactive", case["i"])
+            dev0 = specs[0]["name"]
+
+            def react(event, _n=[0]):
+                vec = event.vector
+                kind = type(vec).__name__.replace("Vector", "")
+                if kind not in ("Text", "Number") or _n[0] > 200:
+                    return
+                names = list(vec.list_elements())
+                if not names:
+                    return
+                _n[0] += 1
+                vec.get_element(rrng.choice(names)).value = client_value(rrng, kind, None)
+                try:
+                    vec.submit()
+                except Exception as e:
+                    reactive_errors.append(repr(e))
+                ctx.count("writes_from_inside_a_definition_callback")
+            reactive_errors = []
+            sn.onevent(callback=react, device=dev0, event_type=CE.DefinitionUpdate)
+            ctx.count("sessions_with_a_reacting_in_process_client")
         ctx.count("sessions")
         if any(len(s["levels"]) >= 3 for s in specs):
             ctx.count("depth3_sessions")
@@ -419,7 +461,55 @@ def _as_expected(view_props):
     return out
 
 
+def _text_spec(name):
+    el = {"attr": "e0", "name": "E0", "label": None, "default": "old", "enabled": True}
+    vec = {"attr": "t", "kind": "Text", "name": "TXT", "label": None, "state": None, "perm": None, "timeout": None, "enabled": True, "elements": [el]}
+    return {"name": name, "levels": [{"groups": [{"attr": "g", "name": "G", "enabled": True, "vectors": [vec]}]}]}
+
+
+def reactive_order_case(ctx, reactive_first):
+    """Three in-process clients (snooping clients of three drivers) follow device CAM.  One of them REACTS to a definition of
+    CAM.TXT by writing a new value from inside its callback (a driver that corrects a setting of the device it snoops as soon
+    as it sees it).  Afterwards every client must hold the device's value.  `reactive_first`: the reacting client was registered
+    with the router before the others (the re-entrant update then overtakes the definition on its way to the later ones)."""
+    from indi.client import events as CE
+    from indi.routing import Router
+    router = Router()
+    cam = D.build(_text_spec("CAM"))(router=router)
+    others = [D.build(_text_spec(f"G{k}"))(router=router) for k in range(3)]
+    order = [0, 1, 2] if reactive_first else [1, 2, 0]
+    clients = {}
+    for k in order:
+        clients[k] = others[k].snoop_device("NOBODY")       # creates and registers the snooping client, follows nothing yet
+    wrote = [0]
+
+    def react(event):
+        if event.vector.name == "TXT" and not wrote[0]:
+            wrote[0] += 1
+            event.vector.get_element("E0").value = "new"
+            event.vector.submit()
+    clients[0].onevent(callback=react, device="CAM", event_type=CE.DefinitionUpdate)
+    clients[2 if reactive_first else 1].handshake(device="CAM")       # somebody asks: CAM defines itself to everybody
+    ctx.count("reactive_in_process_client_cases")
+    dev = D.element_of(cam, "g", "t", "e0").value
+    case = {"mode": "reactive-order", "reactive_first": reactive_first}
+    if not wrote[0] or dev != "new":
+        ctx.violate("reactive-in-process-client:write-from-a-definition-callback-not-applied", f"the reacting client wrote {wrote[0]} time(s), device holds {dev!r}", case)
+        return
+    for k in (1, 2):
+        held = stack.client_view(clients[k]).get("CAM", {}).get("TXT", {}).get("elements", {}).get("E0", (None, None))[1]
+        if held != dev:
+            where = "earlier" if reactive_first else "later"
+            ctx.violate(f"in-process-client:stale-value:after-a-write-from-inside-a-definition-callback-of-an-{where}-registered-client",
+                        f"device CAM.TXT.E0 is {dev!r}; an in-process client registered {'after' if reactive_first else 'before'} the reacting one holds {held!r} "
+                        f"(it was handed the update first and the older definition afterwards)", case)
+            return
+
+
 def one_case(ctx, case):
+    if case.get("mode") == "reactive-order":
+        reactive_order_case(ctx, bool(case["reactive_first"]))
+        return
     nontrivial, ndrv, ncli = asyncio.run(session(ctx, case))
     ctx.case({"i": case["i"], "specs": case["specs"], "modes": [case["mode_c2s"], case["mode_s2c"]], "nops": case["nops"]},
              nontrivial=bool(nontrivial),
@@ -428,6 +518,9 @@ def one_case(ctx, case):
 
 
 def run(ctx):
+    if ctx.mine(0):
+        reactive_order_case(ctx, False)
+        reactive_order_case(ctx, True)
     n = 800 if not ctx.thorough else 30000
     for i in range(n):
         if not ctx.mine(i):
